@@ -421,6 +421,13 @@ class World:
         ret = None
         exc = None
         before_obj = S
+        # an iterator taken before the operation and consumed after it
+        live_it, seen_before = None, []
+        if rnd.random() < 0.12:
+            live_it = iter(S)
+            for _ in range(rnd.randint(0, len(model))):
+                seen_before.append(self.of(next(live_it)))
+            self.case.ops[-1]["live_iterator_advanced"] = len(seen_before)
         try:
             if op == "add":
                 ret = S.add(objs[0])
@@ -493,6 +500,29 @@ class World:
         if S is not before_obj or getattr(self.obj[p], coll) is not before_obj:
             self.fail("C16", "%s:collection-object-replaced" % tag,
                       "in-place operator replaced the owning collection")
+        if live_it is not None:
+            self.ctx.count("c16:set_iter_across_edit")
+            rest, raised = [], None
+            try:
+                for x in live_it:
+                    rest.append(self.of(x))
+            except RuntimeError as e:
+                raised = e
+            if len(new) != len(model):
+                # CPython's set refuses to go on after a size change, but
+                # its documentation promises nothing here: evidence only
+                self.ctx.count("c16:set_iter_after_size_change:" + (
+                    "RuntimeError" if raised else "went-on"))
+            elif new == model:
+                got = collections.Counter(seen_before + rest)
+                if raised is not None or got != collections.Counter(model):
+                    self.fail("C16", "%s:iterator-broken-by-noop" % tag,
+                              "%s changed nothing, but an iterator taken "
+                              "before it %s" % (tag, "raised RuntimeError"
+                                                if raised else
+                                                "yielded %s of %s" % (
+                                                    sorted(got.elements()),
+                                                    sorted(model))))
         # apply to the model
         for x in model - new:
             self.detach_model(x)
@@ -596,7 +626,8 @@ class World:
                          "delslice", "setitem", "setslice", "pop", "pop_i",
                          "remove", "clear", "reverse", "index", "count",
                          "getslice", "contains", "iter", "reversed",
-                         "getitem"])
+                         "getitem", "iter_across_edit", "iter_across_edit",
+                         "iter_across_edit"])
         pool = self.lids("M")
 
         def pick_mod(allow_member=True):
@@ -742,13 +773,73 @@ class World:
             x = pick_mod()
             args = {"x": x}
             fn = lambda T: self.obj[x] in T
+        elif op == "iter_across_edit":
+            # an iterator taken before an edit and consumed after it (a
+            # work-list loop that appends while iterating; a loop that
+            # removes what it has handled): the built-in's iterators look
+            # at the list afresh at every step
+            rev = rnd.random() < 0.4
+            k = rnd.randint(0, n)
+            edit = rnd.choice(["append", "insert", "extend", "pop", "del",
+                               "clear", "delslice", "setitem", "setslice",
+                               "reverse"])
+            xs = [self.make("M") for _ in range(
+                {"append": 1, "insert": 1, "extend": 2, "setitem": 1,
+                 "setslice": 2}.get(edit, 0))]
+            i = rnd.randint(-n - 1, n + 1)
+            incoming = xs
+            args = {"reversed": rev, "advance": k, "edit": edit, "i": i}
+
+            def fn(T):
+                it = reversed(T) if rev else iter(T)
+                out = []
+                for _ in range(k):
+                    try:
+                        out.append(next(it))
+                    except StopIteration:
+                        out.append("stop")
+                        break
+                try:
+                    if edit == "append":
+                        T.append(self.obj[xs[0]])
+                    elif edit == "insert":
+                        T.insert(i, self.obj[xs[0]])
+                    elif edit == "extend":
+                        T.extend([self.obj[x] for x in xs])
+                    elif edit == "pop":
+                        T.pop()
+                    elif edit == "del":
+                        del T[i]
+                    elif edit == "clear":
+                        T.clear()
+                    elif edit == "setitem":
+                        T[i] = self.obj[xs[0]]
+                    elif edit == "setslice":
+                        T[max(0, i):max(0, i) + 1] = [self.obj[x]
+                                                      for x in xs]
+                    elif edit == "reverse":
+                        T.reverse()
+                    else:
+                        del T[:max(0, i)]
+                except IndexError:
+                    out.append("edit:IndexError")
+                for _ in range(3 * n + 8):
+                    try:
+                        out.append(next(it))
+                    except StopIteration:
+                        out.append("stop")
+                        break
+                    except Exception as e:
+                        out.append("raises " + type(e).__name__)
+                        break
+                return out
         elif op == "iter":
             fn = lambda T: list(iter(T))
         elif op == "reversed":
             fn = lambda T: list(reversed(T))
         mutating = op in ("append", "insert", "extend", "iadd", "delitem",
                           "delslice", "setitem", "setslice", "pop", "pop_i",
-                          "remove", "clear", "reverse")
+                          "remove", "clear", "reverse", "iter_across_edit")
         # classify the incoming values for mechanism naming
         member_in = [x for x in incoming if x in cur]
         klass = "plain"
@@ -837,7 +928,8 @@ class World:
             if isinstance(r, gt.Node):
                 return self.of(r)
             if isinstance(r, list):
-                return [self.of(x) for x in r]
+                return [self.of(x) if isinstance(x, gt.Node) else x
+                        for x in r]
             return r
         if norm(got_ret) != norm(want_ret):
             if not (mutating and member_in):
